@@ -181,6 +181,7 @@ func checkUCI(c Case, rec *evid.Rec) error {
 		want = p.NormEP()
 	}
 	var lines []string
+	var wantEach []string // what `fen` must print after each earlier position command of the session
 	base := strings.SplitN(cmd, " moves ", 2)[0]
 	for i, k := range c.Prefixes {
 		if k < 0 || k > len(c.Moves) {
@@ -193,13 +194,32 @@ func checkUCI(c Case, rec *evid.Rec) error {
 		if k > 0 {
 			pc += " moves " + strings.Join(c.Moves[:k], " ")
 		}
-		lines = append(lines, pc)
+		lines = append(lines, pc, "fen")
+		q, _ := refchess.ParseFEN(c.FEN)
+		for _, ms := range c.Moves[:k] {
+			m, _ := refchess.ParseMove(ms)
+			q = q.Make(m)
+		}
+		if k > 0 {
+			q = q.NormEP()
+		}
+		wantEach = append(wantEach, q.FEN())
 	}
 	if n := len(c.Prefixes); n < len(c.NewGame) && c.NewGame[n] {
 		lines = append(lines, "ucinewgame")
 	}
 	out, errOut := eng.UCI(append(lines, cmd, "fen"))
 	got := eng.LastLine(out)
+	outLines := strings.Split(strings.TrimSpace(out), "\n")
+	for i, w := range wantEach {
+		if i >= len(outLines) || outLines[i] != w {
+			g := ""
+			if i < len(outLines) {
+				g = outLines[i]
+			}
+			return fmt.Errorf("session %v: after position command %d `fen` printed %q, reference %q (stderr %q)", lines, i, g, w, errOut)
+		}
+	}
 	if rec != nil {
 		rec.Eval(1)
 		rec.Class("uci_session")
@@ -273,9 +293,14 @@ func TestC02(t *testing.T) {
 				})
 			}
 			if gen.Chance(t, 1, 2, "session") && len(c.Moves) > 0 {
+				// mostly growing move lists (a game in progress), sometimes shorter ones again (take-backs, analysis)
 				k := 0
-				for i := gen.Draw(t, 1, 3, "positionCommands"); i > 0 && k < len(c.Moves); i-- {
-					k += gen.Draw(t, 0, len(c.Moves)-k, "more")
+				for i := gen.Draw(t, 1, 4, "positionCommands"); i > 0; i-- {
+					if gen.Chance(t, 1, 3, "anyPrefix") {
+						k = gen.Draw(t, 0, len(c.Moves), "prefix")
+					} else {
+						k += gen.Draw(t, 0, len(c.Moves)-k, "more")
+					}
 					c.Prefixes = append(c.Prefixes, k)
 					c.NewGame = append(c.NewGame, gen.Chance(t, 1, 4, "newgame"))
 				}
